@@ -15,6 +15,8 @@ import Model.Template
 import Model.JsonGrammar
 import Proofs.JsonAccept
 import Proofs.LineAccept
+import Proofs.FlowTieImport
+import Proofs.RowTieText
 
 namespace Jl.C16
 open Jl Jl.Value Jl.Template
@@ -122,5 +124,21 @@ theorem line_outcomes (ext : Ext) (ti to : Tmpl) (line : Bytes) :
       (∃ e, jlLine ⟨genTables, ext⟩ ti to line = .ok ([], some e)) ∨
       jlLine ⟨genTables, ext⟩ ti to line = .err .ext :=
   LineAccept.gen_jlLine_cases ext ti to line
+
+
+/-! ### The reader of the model is the source's (Proofs/FlowTieImport, Proofs/RowTieText) -/
+
+/-- As written today: `GetRow` is the model's `getRow`; `UnmarshalJSON` reads numbers as literals
+    (`UseNumber`), wants `{`, the members through `parseobject` until `}`, and then ONLY the end of
+    the input; nested objects and arrays go element by element through `handledelim`. -/
+theorem reader_model_is_the_source :
+    (∀ (env : Value.Env) (t : Template.Tmpl) (line : Bytes),
+      FlowTie.getRowG Gen.flowTable.getRow Gen.flowTable.createRowEmpty env t line =
+        some (Template.getRow env t line)) ∧
+    Gen.rowFacts.unmarshal = [.newDecoder true, .openDelim 0x7B, .members "parseobject", .onlyEOF] ∧
+    (∃ k, Gen.rowFacts.parseObject = .whileMore "handledelim" k 0x7D) ∧
+    Gen.rowFacts.parseArray = .whileMore "handledelim" 0x5D :=
+  ⟨FlowTie.getRow_is_getRow, RowTie.unmarshal_as_modelled.1, RowTie.unmarshal_as_modelled.2.1,
+   RowTie.unmarshal_as_modelled.2.2.1⟩
 
 end Jl.C16
